@@ -69,6 +69,8 @@ pub enum Outcome {
     Ok,
     Err(ErrClass),
     Panic,
+    /// the simulator's own call budget ended the call (not an outcome of the code under test)
+    Abort,
 }
 
 impl Outcome {
@@ -77,6 +79,7 @@ impl Outcome {
             Outcome::Ok => "Ok".into(),
             Outcome::Err(c) => format!("Err({})", c.name()),
             Outcome::Panic => "panic".into(),
+            Outcome::Abort => "budget-abort".into(),
         }
     }
     pub fn code(self) -> u8 {
@@ -84,6 +87,7 @@ impl Outcome {
             Outcome::Ok => 0,
             Outcome::Err(c) => 1 + c.code(),
             Outcome::Panic => 255,
+            Outcome::Abort => 254,
         }
     }
 }
@@ -105,6 +109,11 @@ impl Expect {
     pub fn admits(self, o: Outcome) -> bool {
         match (self, o) {
             (_, Outcome::Panic) => false,
+            (_, Outcome::Abort) => true,
+            // a variant the model does not know (the error type has grown): a new dedicated
+            // error for this kind of bad input is still a dedicated error
+            (Expect::Err(_), Outcome::Err(ErrClass::Other)) => true,
+            (Expect::OkOrErr(_), Outcome::Err(ErrClass::Other)) => true,
             (Expect::Ok, Outcome::Ok) => true,
             (Expect::Err(c), Outcome::Err(d)) => c == d,
             (Expect::OkOrErr(_), Outcome::Ok) => true,
